@@ -17,7 +17,7 @@ use blsful::*;
 use serde_json::json;
 use std::io::{BufRead, Write};
 
-pub const RULE: &str = "emit phase (both builds, same seed, same sharding): transcript lines {i, op, out_hex} for seeds -> SecretKey::from_hash, SecretKey::random / random_proof_challenge with a known-stream RNG, public_key, sign x 3 schemes, proof_of_possession, AggregateSignature / MultiSignature / MultiPublicKey accumulation, ProofCommitmentChallenge::from_hash, compute_y, hash_to_scalar, message_generator, seal_scalar with a fixed blinder, signcryption compute_w, the pairing value's byte encoding (what time-lock hashes), the tag constants, the scalar importers (be / le / TryFrom / serde) on the encodings 0, 1, r-1, r, r+1, 2r, 2r+1, 2^255, 2^256-1, and the bytes / serde_bare / serde_json encodings of those deterministic values; plus randomized artefact sets (ciphertexts x lengths, proofs, share sets, with ground truth) from several worker processes per build. check phase: (a) the blst and the rust transcript files must be identical line by line; (b) every artefact produced by one build is decoded, re-encoded and judged against its ground truth by the OTHER build (signatures and PoPs must also be reproduced byte for byte by the consuming build). Distinct by transcript line / artefact bytes; evaluations = lines compared + artefacts consumed.";
+pub const RULE: &str = "emit phase (both builds, same seed, same sharding): transcript lines {i, op, out_hex} for seeds -> SecretKey::from_hash, SecretKey::random / random_proof_challenge with a known-stream RNG, public_key, sign x 3 schemes, proof_of_possession, AggregateSignature / MultiSignature / MultiPublicKey accumulation, ProofCommitmentChallenge::from_hash, compute_y, hash_to_scalar, message_generator, seal_scalar with a fixed blinder, signcryption compute_w, the pairing value's byte encoding (what time-lock hashes), the tag constants, share combination (SecretKey::combine, PublicKey::from_shares, partial signatures and Signature::from_shares over harness-built share sets with identifiers up to 255, in three orders), the same signing operations for the edge keys 1, 2, 3, r-1, r-2, 2^254, ..., the scalar importers (be / le / TryFrom / serde) on the encodings 0, 1, r-1, r, r+1, 2r, 2r+1, 2^255, 2^256-1, and the bytes / serde_bare / serde_json encodings of those deterministic values; plus randomized artefact sets (ciphertexts x lengths, proofs, share sets, with ground truth) from several worker processes per build. check phase: (a) the blst and the rust transcript files must be identical line by line; (b) every artefact produced by one build is decoded, re-encoded and judged against its ground truth by the OTHER build (signatures and PoPs must also be reproduced byte for byte by the consuming build). Distinct by transcript line / artefact bytes; evaluations = lines compared + artefacts consumed.";
 
 pub fn run(ctx: &mut Ctx) {
     match ctx.phase.as_str() {
@@ -81,6 +81,47 @@ fn lines_for<C: Suite>(ctx: &Ctx, i: u64, out: &mut Vec<(String, Vec<u8>)>) {
     push("pairing_bytes", gt.to_bytes().as_ref().to_vec());
     push("timelock_compute_v", <C as BlsTimeCrypt>::compute_v(gt, &[0x11u8; 32]).to_vec());
     push("timelock_compute_w", <C as BlsTimeCrypt>::compute_w(&[0x22u8; 32], &msg));
+    // share combination over a share set built by the harness (f(x) = sk + a1*x, a1 hash-derived;
+    // identifiers vary with i and reach 255), and the same operations for an edge key
+    {
+        use blsful::vsss_rs::Share;
+        let s0 = rs_from_sc::<C>(&sk.0);
+        let a1 = crate::refimpl::keygen(&[&seed[..], b"a1"].concat());
+        let ids: [u8; 3] = [1 + (i % 7) as u8, 100 + (i % 50) as u8, 255 - (i % 3) as u8];
+        let mut shares: Vec<SecretKeyShare<C>> = Vec::new();
+        for id in ids {
+            let val = s0 + a1 * crate::refimpl::RS::from(id as u64);
+            let mut le = val.to_be_bytes();
+            le.reverse();
+            let mut inner = <<C as Pairing>::SecretKeyShare as Share>::empty_share_with_capacity(32);
+            *inner.identifier_mut() = id;
+            if inner.value_mut(&le).is_ok() {
+                shares.push(SecretKeyShare::<C>(inner));
+            }
+        }
+        if shares.len() == 3 {
+            for (sn, set) in [("first-two", vec![shares[0].clone(), shares[1].clone()]), ("last-two-reversed", vec![shares[2].clone(), shares[1].clone()]), ("all", shares.clone())] {
+                push(&format!("combine/{sn}"), SecretKey::<C>::combine(&set).map(|k| k.to_be_bytes().to_vec()).unwrap_or_else(|_| b"Err".to_vec()));
+                let pks: Vec<PublicKeyShare<C>> = set.iter().filter_map(|x| x.public_key().ok()).collect();
+                push(&format!("public_key_from_shares/{sn}"), PublicKey::<C>::from_shares(&pks).map(|k| pk_bytes(&k)).unwrap_or_else(|_| b"Err".to_vec()));
+                for s in [Scheme::Basic, Scheme::Pop] {
+                    let parts: Vec<SignatureShare<C>> = set.iter().filter_map(|x| x.sign(lscheme(s), &msg).ok()).collect();
+                    push(&format!("partial_sign/{sn}/{}", s.name()), parts.iter().flat_map(|p| Vec::from(p)).collect());
+                    push(&format!("signature_from_shares/{sn}/{}", s.name()), Signature::<C>::from_shares(&parts).map(|k| Vec::from(&k)).unwrap_or_else(|_| b"Err".to_vec()));
+                }
+            }
+        }
+        let edges = gen::edge_scalars(&mut KnownRng::new(vec![7u8; 64]));
+        let ek = sk_from_rs::<C>(&edges[(i % 8) as usize].1);
+        push("edge/public_key", pk_bytes(&ek.public_key()));
+        for s in SCHEMES {
+            push(&format!("edge/sign/{}", s.name()), ek.sign(lscheme(s), &msg).map(|x| Vec::from(&x)).unwrap_or_default());
+        }
+        push("edge/proof_of_possession", ek.proof_of_possession().map(|p| Vec::from(&p)).unwrap_or_default());
+        if let Ok((c1, c2)) = <C as BlsElGamal>::seal_scalar(pk.0, ek.0, None, Some(blinder), KnownRng::new(stream.clone())) {
+            push("edge/elgamal_seal_fixed_blinder", [enc_pt(&c1), enc_pt(&c2)].concat());
+        }
+    }
     // encodings of deterministic values
     push("sk/bytes", Vec::from(&sk));
     push("sk/bare", serde_bare::to_vec(&sk).unwrap_or_default());
@@ -125,7 +166,7 @@ fn emit(ctx: &mut Ctx) {
     let backend = ctx.backend();
     let tdir = ctx.work_dir(&format!("transcript-{backend}"));
     let adir = ctx.work_dir(&format!("artefacts-{backend}"));
-    let total = ctx.tier.pick(48u64, 640);
+    let total = ctx.tier.pick(192u64, 960);
     let path = tdir.join(format!("worker-{:02}.jsonl", ctx.worker));
     let Ok(f) = std::fs::File::create(&path) else {
         ctx.harness_error(format!("cannot write {path:?}"));
